@@ -38,22 +38,23 @@ var configs = []config{
 }
 
 type caseDesc struct {
-	Config string `json:"config"`
-	Closer string `json:"closer"` // app or target
-	Len    int    `json:"len"`
-	Parts  []int  `json:"parts,omitempty"`
-	Race   bool   `json:"race"`    // close issued concurrently with the last write
-	RaceUs int    `json:"race_us"` // delay between starting the last write and closing
-	Others int    `json:"others"`  // other logical connections open meanwhile
-	Active bool   `json:"others_active"`
-	Key    uint64 `json:"key"`
+	Config  string `json:"config"`
+	Closer  string `json:"closer"` // app or target
+	Len     int    `json:"len"`
+	Parts   []int  `json:"parts,omitempty"`
+	Race    bool   `json:"race"`                      // close issued concurrently with the last write
+	RaceUs  int    `json:"race_us"`                   // delay between starting the last write and closing
+	Others  int    `json:"others"`                    // other logical connections open meanwhile
+	Refusal bool   `json:"refused_request_meanwhile"` // a request for an unknown channel is refused after the first write
+	Active  bool   `json:"others_active"`
+	Key     uint64 `json:"key"`
 }
 
 var boundaries = []int{0, 1, 2, 4095, 4096, 4097, 32639, 32640, 32641, 32767, 32768, 32769, 65535, 65536, 65537}
 
 // closerWrite writes data in parts and closes, optionally racing the close with the last write. It returns the
 // number of bytes the writes accepted.
-func closerWrite(c net.Conn, data []byte, parts []int, race bool, raceUs int) int {
+func closerWrite(c net.Conn, data []byte, parts []int, race bool, raceUs int, afterFirst func()) int {
 	accepted := 0
 	rest := data
 	var pieces [][]byte
@@ -93,6 +94,9 @@ func closerWrite(c net.Conn, data []byte, parts []int, race bool, raceUs int) in
 		accepted += n
 		if err != nil {
 			break
+		}
+		if i == 0 && afterFirst != nil {
+			afterFirst()
 		}
 	}
 	c.Close()
@@ -137,10 +141,25 @@ func runCase(d caseDesc) (problem string, inconclusive bool) {
 	}
 	obsCh := make(chan tgtObs, 16)
 	first := make(chan struct{}, 64)
+	// refuse: while the transfer is under way somebody asks the same client for a channel the server does not have
+	var p *vlib.Pair
+	var refuse func()
+	if d.Refusal {
+		refuse = func() {
+			c, err := p.Dial("nochan")
+			if err != nil {
+				return
+			}
+			c.SetDeadline(time.Now().Add(10 * time.Second))
+			buf := make([]byte, 8)
+			c.Read(buf)
+			c.Close()
+		}
+	}
 	mainHandler := func(tc *vlib.TargetConn) {
 		first <- struct{}{}
 		if d.Closer == "target" {
-			n := closerWrite(tc.Conn, payload, d.Parts, d.Race, d.RaceUs)
+			n := closerWrite(tc.Conn, payload, d.Parts, d.Race, d.RaceUs, refuse)
 			obsCh <- tgtObs{accepted: n}
 			return
 		}
@@ -151,13 +170,12 @@ func runCase(d caseDesc) (problem string, inconclusive bool) {
 	build := func(tgt *vlib.Target) vlib.PairConfig {
 		pc := vlib.PairConfig{Carrier: c.carrier, ClientInsecure: true,
 			Channels:  []vlib.ChannelSpec{{Name: "data", Target: tgt.URL()}, {Name: "other", Target: tgt.URL()}},
-			Listeners: []vlib.ListenerSpec{{Channel: "data"}, {Channel: "other"}}}
+			Listeners: []vlib.ListenerSpec{{Channel: "data"}, {Channel: "other"}, {Channel: "nochan"}}}
 		if c.sec != "plain" {
 			pc.ServerCert = &vlib.GetPKI().ServerGood
 		}
 		return pc
 	}
-	var p *vlib.Pair
 	var tgt *vlib.Target
 	var done func(bool)
 	if c.carrier == vlib.CarDNS {
@@ -245,7 +263,7 @@ func runCase(d caseDesc) (problem string, inconclusive bool) {
 	if d.Closer == "app" {
 		// make sure the logical connection exists end to end before data+close are issued? No: the property
 		// holds from the first byte; the application just writes and closes.
-		accepted := closerWrite(app, payload, d.Parts, d.Race, d.RaceUs)
+		accepted := closerWrite(app, payload, d.Parts, d.Race, d.RaceUs, refuse)
 		var obs tgtObs
 		select {
 		case obs = <-obsCh:
@@ -336,6 +354,7 @@ func TestOrderlyClose(t *testing.T) {
 			d.RaceUs = rapid.IntRange(0, 400).Draw(rt, "raceUs")
 		}
 		d.Others = rapid.IntRange(0, 2).Draw(rt, "others")
+		d.Refusal = len(d.Parts) > 0 && rapid.IntRange(0, 2).Draw(rt, "refusal") == 0
 		d.Active = d.Others > 0 && rapid.Bool().Draw(rt, "active")
 		d.Key = uint64(rapid.IntRange(1, 1<<30).Draw(rt, "key"))
 		vlib.Tap.Reset()
@@ -347,6 +366,9 @@ func TestOrderlyClose(t *testing.T) {
 		labels := []string{"cfg:" + c.name, "closer:" + d.Closer, fmt.Sprintf("others:%d", d.Others)}
 		if d.Race {
 			labels = append(labels, "race")
+		}
+		if d.Refusal {
+			labels = append(labels, "refusal-meanwhile")
 		}
 		switch {
 		case d.Len == 0:
